@@ -438,6 +438,12 @@ func TestVerifC04(t *testing.T) {
 		g := world.Generate(r, []string{s.Host(2 + r.Intn(3)), s.Host(5 + r.Intn(3)), s.AltHost(8)}, o)
 		// hostile references inside content: they must not be able to shape a request either
 		for _, p := range g.Posts {
+			if r.Intn(5) == 0 && len(g.Posts) > 1 {
+				// a reference object whose id carries a fragment: the object is fetched by that id, and a fragment never leaves the client
+				other := g.Posts[r.Intn(len(g.Posts))]
+				p.Extra = map[string]any{"inReplyTo": map[string]any{"id": other.ID + "#zzfrag-create", "type": "Note"}, "context": other.ID + "#zzfrag-context"}
+				continue
+			}
 			if r.Intn(4) == 0 {
 				p.Extra = map[string]any{"inReplyTo": "https://" + g.Hosts[0] + "/x/" + hostilePathBits[r.Intn(len(hostilePathBits))] + "?" + hostileQueryBits[r.Intn(len(hostileQueryBits))]}
 			}
@@ -476,6 +482,9 @@ func TestVerifC04(t *testing.T) {
 			sig, detail, sp := checkRequest(rq, nil)
 			if sp {
 				c.Count("raw_sp_in_target", 1)
+			}
+			if strings.Contains(string(rq.Raw), "zzfrag") {
+				sig, detail = "fragment-sent", fmt.Sprintf("the fragment of an identifier was sent to the server: %q", ev.Trunc(string(rq.Raw), 200))
 			}
 			if sig != "" {
 				c.Violation("request:"+sig, detail+"\n(while browsing a generated world)", d)
